@@ -327,9 +327,12 @@ class Path:
         self.counter = 0
         # feasibility solver: quantifier-free facts only (dropping facts only keeps more paths)
         self.solver = z3.Solver()
-        self.solver.set('timeout', 1000)
-        for a in world.axioms:
-            self._feas_add(a)
+        self.solver.set('timeout', int(os.environ.get('PYVC_FEAS_MS', '300')))
+        # world axioms are added when a fact first mentions one of their symbols (relevance closure)
+        from .solve import symbols_of
+        self._symbols_of = symbols_of
+        self._pending_axioms = [(a, symbols_of(a)) for a in world.axioms if not _has_quantifier(a)]
+        self._feas_syms: set = set()
         self.vars: dict[str, Any] = {}
         self.path_axioms: list = []
         self.used_lemmas: set[str] = set()
@@ -337,6 +340,29 @@ class Path:
     def _feas_add(self, c):
         if not _has_quantifier(c):
             self.solver.add(c)
+            self._feas_touch(c)
+
+    def _feas_touch(self, c):
+        """pull in the world axioms that share a symbol with the facts seen so far"""
+        if not self._pending_axioms:
+            return
+        new = self._symbols_of(c) - self._feas_syms
+        if not new:
+            return
+        self._feas_syms |= new
+        changed = True
+        while changed and self._pending_axioms:
+            changed = False
+            keep = []
+            for a, sy in self._pending_axioms:
+                if not sy or sy & self._feas_syms:
+                    self.solver.add(a)
+                    if sy - self._feas_syms:
+                        self._feas_syms |= sy
+                        changed = True
+                else:
+                    keep.append((a, sy))
+            self._pending_axioms = keep
 
     def fresh(self, hint: str, sort):
         self.counter += 1
@@ -358,9 +384,11 @@ class Path:
         """cond is implied by the (quantifier-free part of the) path condition"""
         if z3.is_true(z3.simplify(cond)):
             return True
+        self._feas_touch(cond)
         return self.solver.check(z3.Not(cond)) == z3.unsat
 
     def feasible(self, cond) -> bool:
+        self._feas_touch(cond)
         r = self.solver.check(cond)
         return r != z3.unsat
 
@@ -784,6 +812,8 @@ class Interp:
         def run(stmts, cond):
             self.env = dict(saved)
             self.p.pc.append(cond)
+            if not _has_quantifier(cond):
+                self.p._feas_touch(cond)  # axioms go in below the push: they are not branch-local
             self.p.solver.push()
             self.p.solver.add(cond) if not _has_quantifier(cond) else None
             try:
@@ -828,6 +858,13 @@ class Interp:
             O = S.UNIONS['Outcome']
             self.p.oblige('type', O.is_o_err(v), s, 'raised value is an exception')
             v = ExcV(O.o_err__cls(v), O.o_err__eid(v), origin='memo')
+        if S.is_val(v):
+            # a value that holds an exception object (tagged vobj, as in _isinstance1); anything else is a TypeError
+            isexc = z3.And(Val.is_vobj(v), Val.ocls(v) >= 0, Val.ocls(v) < len(self.w.exc.names), self.w.exc.is_sub(Val.ocls(v), 'BaseException'))
+            if self.p.fork(isexc):
+                v = ExcV(Val.ocls(v), Val.oid(v), origin='value')
+            else:
+                v = self.new_exc('TypeError', [])
         if not isinstance(v, ExcV):
             self.oos('raise of a non-exception value', s)
         raise Raised(v)
@@ -1265,6 +1302,10 @@ class Interp:
                 except Ret:
                     pass
                 return
+            if attr not in obj.f and attr in self.w.registry.classes.get(obj.cls, {}).get('untracked', ()):
+                # a field outside every contract's view of this class: the store cannot change a tracked field
+                # (distinct attribute, no setter); reads of it yield an unknown value
+                return
             if attr not in obj.f and not obj.f.get('__open__'):
                 self.oos(f'unknown field {obj.cls}.{attr}', node)
             cur = obj.f.get(attr)
@@ -1364,6 +1405,12 @@ class Interp:
         v = n.value
         if v is Ellipsis:
             self.oos('ellipsis', n)
+        if isinstance(v, float) and not self.spec:
+            # floats are not modelled: an unknown value that is not None (sound over-approximation; any operation
+            # that needs its value is out of subset or yields another unknown)
+            t = self.p.fresh('float', Val)
+            self.p.assume(z3.Not(Val.is_none(t)))
+            return t
         if isinstance(v, (float, bytes, complex)):
             self.oos('float/bytes constant', n)
         return v
@@ -2109,6 +2156,8 @@ class Interp:
             if attr in obj.f:
                 v = obj.f[attr]
                 return self.wrap_field(v, lambda: obj.f[attr], lambda t: obj.f.__setitem__(attr, t))
+            if attr in self.w.registry.classes.get(obj.cls, {}).get('untracked', ()):
+                return self.p.fresh(f'{obj.cls}.{attr}', Val)
             prop = self.find_property(obj, attr)
             if prop is not None:
                 key = f'{prop.module}:{prop.cls}.{attr}'
@@ -2176,6 +2225,10 @@ class Interp:
                     except Ret as r:
                         return r.value
                     return None
+                key = f'{where[0]}:{where[1]}.{fn.name}'
+                cc = self.w.registry.get(key)
+                if cc is not None and not self.w.registry.force_inline(key) and self._self_sort_fits(cc, name):
+                    return BoundMeth(obj, attr, cc)
                 return BoundMeth(obj, attr, clo)
             self.oos(f'unknown attribute {name}.{attr}', n)
         CS = S.UNIONS.get('ColorSpec')
@@ -2513,7 +2566,7 @@ BUILTINS = {
     'len', 'isinstance', 'bool', 'int', 'str', 'min', 'max', 'range', 'all', 'any', 'getattr', 'hasattr',
     'callable', 'next', 'iter', 'enumerate', 'abs', 'repr', 'sorted', 'hash', 'issubclass', 'super', 'print', 'id',
     'ord', 'chr', 'zip', 'sum', 'old', 'int_ok', 'uint_ok', 'float_ok', 'implies', 'type', 'dict_with', 'dict_get',
-    'dict_has', 'seq_eq', 'out_ok', 'out_frame', 'out_ret', 'out_cut', 'out_fail_frame', 'exc_inside', 'exc_is', 'boundcall', 'top_only', 'store', 'o_none', 'o_ok', 'same_func', 'ismethod', 'is_func', 'ast_walk', 'format', 'is_ok', 'is_err', 'ok_res', 'is_failure', 'grown', 'memo_ok', 'outcome_ok', 'submap', 'forall_keys', 'is_suffix',
+    'dict_has', 'seq_eq', 'out_ok', 'out_frame', 'out_ret', 'out_cut', 'out_fail_frame', 'exc_inside', 'exc_is', 'boundcall', 'top_only', 'store', 'o_none', 'o_ok', 'same_func', 'ismethod', 'is_func', 'ast_walk', 'format', 'is_ok', 'is_err', 'ok_res', 'is_failure', 'grown', 'memo_ok', 'outcome_ok', 'submap', 'forall_keys', 'exists_key', 'is_suffix',
 }
 
 
